@@ -163,6 +163,14 @@ def base_proofs():
                mk_item(3, 'implies_intr', args=A, prevs=[2]),
                mk_item(4, 'implies_intr', args=Implies(A, B), prevs=[3])]
     out.append(p)
+    # a block nested in a block
+    p = Proof()
+    p.items = [mk_item(0, 'subproof', th=Thm(Implies(B, Implies(A, A))), sub=[
+        mk_item((0, 0), 'subproof', th=Thm(Implies(A, A)), sub=[
+            mk_item((0, 0, 0), 'assume', args=A, th=Thm(A, A)),
+            mk_item((0, 0, 1), 'implies_intr', args=A, prevs=[(0, 0, 0)], th=Thm(Implies(A, A)))]),
+        mk_item((0, 1), 'implies_intr', args=B, prevs=[(0, 0)], th=Thm(Implies(B, Implies(A, A))))])]
+    out.append(p)
     # block structured
     p = Proof()
     p.items = [mk_item(0, 'subproof', th=Thm(Implies(A, A)), sub=[
@@ -269,6 +277,33 @@ def check_extend(violations, stats, rng, n_random):
     proofs.append(sp)
     for i in range(n_random):
         proofs.append(mutate(rng.choice(base_proofs()), rng))
+    # a proof that cites the very theorem it is meant to prove, and the state of the theory after a refusal
+    for th in stated:
+        old = theory.thy
+        try:
+            theory.thy = copy.copy(old)
+            theory.thy.data = copy.deepcopy(old.data)
+            sp = Proof()
+            sp.items = [mk_item(0, 'theorem', args='verif_self_thm')]
+            ext = extension.Theorem('verif_self_thm', th, prf=sp)
+            try:
+                rep = theory.thy.checked_extend([ext])
+                refused = False
+                as_axiom = any(nm == 'verif_self_thm' for nm, _ in rep.get_axioms())
+            except Exception:
+                refused, as_axiom = True, False
+            stats['evaluations'] += 1
+            installed = theory.thy.has_theorem('verif_self_thm')
+            if installed and not as_axiom and not refused:
+                violations.append({'function': 'kernel.theory.Theory.checked_extend', 'clause': 'proved=>proof shows it',
+                                   'what': 'theorem %s installed as proved by a proof that cites the theorem itself' % th,
+                                   'proof': show(sp)})
+            if refused and installed:
+                violations.append({'function': 'kernel.theory.Theory.checked_extend', 'clause': 'refused=>not installed',
+                                   'what': 'extension with theorem %s was refused but the theorem is in the theory' % th,
+                                   'proof': show(sp)})
+        finally:
+            theory.thy = old
     for th, prf in itertools.product(stated, proofs):
         old = theory.thy
         try:
@@ -281,6 +316,10 @@ def check_extend(violations, stats, rng, n_random):
                 as_axiom = any(nm == 'verif_tmp_thm' for nm, _ in rep.get_axioms())
             except Exception:
                 installed, as_axiom = False, False
+                if theory.thy.has_theorem('verif_tmp_thm'):
+                    violations.append({'function': 'kernel.theory.Theory.checked_extend', 'clause': 'refused=>not installed',
+                                       'what': 'extension with theorem %s was refused but the theorem is in the theory' % th,
+                                       'proof': show(prf)})
             stats['evaluations'] += 1
             if installed and not as_axiom and valid_sequent(th) is False:
                 violations.append({'function': 'kernel.theory.Theory.checked_extend', 'clause': 'proved=>proof shows it',
@@ -396,6 +435,30 @@ def run(tier='quick', seed=0):
         distinct.add(str(show(q)))
         if len(samples) < 6:
             samples.append({'mutant': show(q)})
+    # directed: the last line of every block (top level and nested) replaced by a line without a rule that merely
+    # STATES a sequent (false, an atom, or what the block really proves); such a line is never checked, so its
+    # statement must not become the result of the block
+    from kernel.thm import Thm as _Thm
+    from kernel.term import false as _false
+    A_, B_ = atoms()
+    for b in bases:
+        blocks = [b] + [it.subproof for it in all_items(b) if it.subproof is not None]
+        for bi in range(len(blocks)):
+            for stated in (_Thm(_false), _Thm(A_), None):
+                q = copy.copy(b)
+                qblocks = [q] + [it.subproof for it in all_items(q) if it.subproof is not None]
+                last = qblocks[bi].items[-1]
+                last.rule = ''
+                last.args = None
+                last.prevs = []
+                if stated is not None:
+                    last.th = stated
+                    # the enclosing lines state what they would derive from it
+                    for it in all_items(q):
+                        if it.subproof is qblocks[bi]:
+                            it.th = stated
+                check_one(q, violations, stats)
+                distinct.add(str(show(q)))
     check_extend(violations, stats, rng, 10 if tier == 'quick' else 80)
     check_expansion(violations, stats)
     # de-duplicate violations by message
